@@ -73,11 +73,14 @@ W_MULW4  == <<16384, 1>>            \* 2^30 + 1 : * 4 wraps to 4
 W_MULW2  == <<32768, 1>>            \* 2^31 + 1 : * 2 wraps to 2
 Bigs == {W_I31MAX, W_I31, W_U32MAX, W_WRAP8, W_MULW4, W_MULW2}
 
-\* concrete values of the boundary symbols for a file of length L; the len/rem/orig-relative
-\* symbols all fall into 0..L+1, so the whole range is taken
-Vals(L) == {WFromNat(n) : n \in 0..(L + 1)} \cup Bigs
+\* concrete values of the boundary symbols for a file of length L and a field whose exact fitting
+\* boundary is `rem` (len/rem/orig-relative symbols with orig in {1, 2, 4, 8})
+NatW(S)  == {WFromNat(n) : n \in {m \in S : m >= 0}}
+Vals(L, rem) == NatW({0, 1, 2, 4, 8, rem - 1, rem, rem + 1, L - 1, L, L + 1}) \cup Bigs
+\* the reduced set used for nested headers (keeps the exhaustive model small)
+ValsN(L, rem) == NatW({0, 1, rem, rem + 1, L, L + 1}) \cup {W_I31, W_U32MAX, W_MULW4}
 
-Small(w)  == w[1] = 0 /\ w[2] <= MaxLen + 1
+Small(w)  == w[1] = 0 /\ w[2] <= MaxLen + 9
 NatOf(w)  == IF Small(w) THEN w[2] ELSE BIG
 Le32(a, b) == a[1] < b[1] \/ (a[1] = b[1] /\ a[2] <= b[2])
 \* wrapping product of a word with a small natural k (repeated addition)
@@ -114,12 +117,11 @@ VARIABLES vflen,   \* length of the adversarial file
           vfld,    \* the fields read last
           vstk,    \* array nesting: stack of suspended loops [cnt, off, esz, idx]
           vreq,    \* largest single allocation request so far (bytes, capped at BIG)
-          vtot,    \* total allocated (bytes, capped)
           vwork,   \* loop iterations so far (capped at BIG)
           vrd,     \* last read: <<start, length>>
           vout     \* "run" | "ok" | "err"
 
-vars == <<vflen, varch, vpc, vcur, vlim, vfld, vstk, vreq, vtot, vwork, vrd, vout>>
+vars == <<vflen, varch, vpc, vcur, vlim, vfld, vstk, vreq, vwork, vrd, vout>>
 
 NoFld == [size |-> WZero, cnt |-> WZero, off |-> WZero, esz |-> 0, idx |-> 0, cont |-> FALSE]
 Top == vlim[1]
@@ -141,23 +143,22 @@ Init == /\ vflen \in 0..MaxLen
         /\ vlim = <<vflen>>
         /\ vfld = NoFld
         /\ vstk = <<>>
-        /\ vreq = 0 /\ vtot = 0 /\ vwork = 0
+        /\ vreq = 0 /\ vwork = 0
         /\ vrd = <<0, 0>>
         /\ vout = "run"
 
 \* ---- primitive effects -------------------------------------------------------------------------
 Read(a, n)  == vrd' = <<a, n>>
-Alloc(n)    == /\ vreq' = IF n > vreq THEN Cap(n) ELSE vreq
-               /\ vtot' = Cap(vtot + Cap(n))
-NoAlloc     == UNCHANGED <<vreq, vtot>>
+Alloc(n)    == vreq' = IF n > vreq THEN Cap(n) ELSE vreq
+NoAlloc     == UNCHANGED vreq
 Work(n)     == vwork' = Cap(vwork + n)
 Finish(o)   == /\ vpc' = "done" /\ vout' = o
 Fail        == /\ Finish("err")
-               /\ UNCHANGED <<vcur, vlim, vfld, vstk, vreq, vtot, vwork, vrd>>
+               /\ UNCHANGED <<vcur, vlim, vfld, vstk, vreq, vwork, vrd>>
 
 Start == /\ vpc = "start"
          /\ vpc' = CASE varch = "chunk" -> "chunk" [] varch = "array" -> "array" [] OTHER -> "string"
-         /\ UNCHANGED <<vflen, varch, vcur, vlim, vfld, vstk, vreq, vtot, vwork, vrd, vout>>
+         /\ UNCHANGED <<vflen, varch, vcur, vlim, vfld, vstk, vreq, vwork, vrd, vout>>
 
 (***************************************************************************************************)
 (* (i) chunk walker                                                                                *)
@@ -165,7 +166,7 @@ Start == /\ vpc = "start"
 \* read the next 8-byte header if it fits into the current region
 ChunkHeader ==
   /\ vpc = "chunk" /\ vcur + ChunkHdr <= Top
-  /\ \E sz \in Vals(vflen), c \in BOOLEAN :
+  /\ \E sz \in Vals(vflen, Top - vcur - ChunkHdr), c \in BOOLEAN :
         vfld' = [NoFld EXCEPT !.size = sz, !.cont = c /\ Len(vlim) < MaxDepth]
   /\ Read(vcur, ChunkHdr) /\ Work(1) /\ NoAlloc
   /\ vpc' = "chunk_check"
@@ -178,7 +179,7 @@ ChunkRegionEnd ==
        THEN /\ vlim' = Tail(vlim) /\ vcur' = Top /\ vpc' = "chunk" /\ UNCHANGED vout
        ELSE /\ \E o \in (IF vcur = Top THEN {"ok"} ELSE {"ok", "err"}) : Finish(o)
             /\ UNCHANGED <<vlim, vcur>>
-  /\ UNCHANGED <<vflen, varch, vfld, vstk, vreq, vtot, vwork, vrd>>
+  /\ UNCHANGED <<vflen, varch, vfld, vstk, vreq, vwork, vrd>>
 
 \* the declared size is compared with what is left of the region *without* overflow
 ChunkFits == Small(vfld.size) /\ NatOf(vfld.size) <= Top - vcur - ChunkHdr
@@ -237,7 +238,7 @@ ChunkNoCheck ==
 ChunkNoProgress ==
   /\ F("noprogress") /\ vpc = "chunk_check" /\ vfld.size = WZero
   /\ vpc' = "chunk"
-  /\ UNCHANGED <<vflen, varch, vcur, vlim, vfld, vstk, vreq, vtot, vwork, vrd, vout>>
+  /\ UNCHANGED <<vflen, varch, vcur, vlim, vfld, vstk, vreq, vwork, vrd, vout>>
 
 (***************************************************************************************************)
 (* (ii) counted array, one level of nesting                                                        *)
@@ -246,11 +247,14 @@ ChunkNoProgress ==
 ArrayHeader ==
   /\ vpc = "array"
   /\ IF vcur + ArrHdr <= vflen
-       THEN /\ \E c \in Vals(vflen), o \in Vals(vflen), e \in ESizes :
-                 vfld' = [NoFld EXCEPT !.cnt = c, !.off = o, !.esz = e]
+       THEN /\ \E e \in (IF vstk = <<>> THEN ESizes ELSE {1, 4}) :
+              \E o \in (IF vstk = <<>> THEN Vals(vflen, vflen - 8) ELSE ValsN(vflen, vflen - 1)) :
+                LET fit == IF e > 0 /\ Small(o) /\ NatOf(o) <= vflen THEN (vflen - NatOf(o)) \div e ELSE vflen IN
+                \E c \in (IF vstk = <<>> THEN Vals(vflen, fit) \cup NatW({3}) ELSE ValsN(vflen, fit)) :
+                  vfld' = [NoFld EXCEPT !.cnt = c, !.off = o, !.esz = e]
             /\ Read(vcur, ArrHdr) /\ Work(1)
             /\ vpc' = IF F("prealloc") THEN "array_prealloc" ELSE "array_check"
-            /\ UNCHANGED <<vcur, vlim, vstk, vreq, vtot, vout>>
+            /\ UNCHANGED <<vcur, vlim, vstk, vreq, vout>>
        ELSE Fail
   /\ UNCHANGED <<vflen, varch>>
 
@@ -289,7 +293,7 @@ ArrayDone ==
   /\ IF vstk = <<>>
        THEN Finish("ok") /\ UNCHANGED <<vfld, vstk>>
        ELSE /\ vfld' = vstk[1] /\ vstk' = Tail(vstk) /\ vpc' = "array_read" /\ UNCHANGED vout
-  /\ UNCHANGED <<vflen, varch, vcur, vlim, vreq, vtot, vwork, vrd>>
+  /\ UNCHANGED <<vflen, varch, vcur, vlim, vreq, vwork, vrd>>
 
 \* ---- deviations --------------------------------------------------------------------------------
 \* "prealloc": capacity reserved from the raw count before anything is validated
@@ -334,7 +338,7 @@ ArrayNoOffCheck ==
 StringHeader ==
   /\ vpc = "string"
   /\ IF vcur + 4 <= vflen
-       THEN /\ \E v \in Vals(vflen), lp \in BOOLEAN :
+       THEN /\ \E v \in Vals(vflen, vflen - vcur - 4), lp \in BOOLEAN :
                  vfld' = [NoFld EXCEPT !.size = v, !.cont = lp]     \* cont = "length-prefixed"
             /\ Read(vcur, 4) /\ Work(1) /\ NoAlloc
             /\ vpc' = "string_check"
@@ -359,7 +363,7 @@ StringOffAccept ==
   /\ vpc = "string_check" /\ ~vfld.cont /\ StrOffFits
   /\ vcur' = NatOf(vfld.size) /\ vfld' = [vfld EXCEPT !.idx = NatOf(vfld.size)]
   /\ vpc' = "string_scan"
-  /\ UNCHANGED <<vflen, varch, vlim, vstk, vreq, vtot, vwork, vrd, vout>>
+  /\ UNCHANGED <<vflen, varch, vlim, vstk, vreq, vwork, vrd, vout>>
 StringOffReject ==
   /\ vpc = "string_check" /\ ~vfld.cont /\ ~StrOffFits
   /\ Fail /\ UNCHANGED <<vflen, varch>>
@@ -376,7 +380,7 @@ StringScan ==
 StringUnterminated ==
   /\ vpc = "string_scan" /\ vcur >= vflen /\ ~StuckCase
   /\ \E o \in {"ok", "err"} : Finish(o)
-  /\ UNCHANGED <<vflen, varch, vcur, vlim, vfld, vstk, vreq, vtot, vwork, vrd>>
+  /\ UNCHANGED <<vflen, varch, vcur, vlim, vfld, vstk, vreq, vwork, vrd>>
 
 \* ---- deviations --------------------------------------------------------------------------------
 StringNoCheck ==
@@ -390,7 +394,7 @@ StringOffNoCheck ==
   /\ vcur' = NatOf(vfld.size) /\ vfld' = [vfld EXCEPT !.idx = NatOf(vfld.size)]
   /\ Read(NatOf(vfld.size), 1)
   /\ vpc' = "string_scan"
-  /\ UNCHANGED <<vflen, varch, vlim, vstk, vreq, vtot, vwork, vout>>
+  /\ UNCHANGED <<vflen, varch, vlim, vstk, vreq, vwork, vout>>
 
 StringScanPast ==
   /\ F("scanpast") /\ vpc = "string_scan" /\ vcur >= vflen /\ vcur < vflen + 2
@@ -422,14 +426,11 @@ Spec == Init /\ [][Next]_vars /\ WF_vars(Next)
 TypeOK == /\ vflen \in 0..MaxLen /\ varch \in Archetypes
           /\ vpc \in {"start", "chunk", "chunk_check", "array", "array_prealloc", "array_check", "array_read",
                       "string", "string_check", "string_scan", "done"}
-          /\ vcur \in 0..BIG /\ vreq \in 0..BIG /\ vtot \in 0..BIG /\ vwork \in 0..BIG
+          /\ vcur \in 0..BIG /\ vreq \in 0..BIG /\ vwork \in 0..BIG
           /\ vout \in {"run", "ok", "err"}
 
 ReadInBounds  == vrd[1] + vrd[2] <= vflen
 AllocBounded  == vreq <= AllocK * vflen + AllocC
-\* aliasing nested arrays make the *total* quadratic in the worst case (each of n elements may
-\* point at the same n bytes); that is the bound the intended design gives
-TotalBounded  == vtot <= AllocK * vflen * (vflen + 1) + AllocC
 WorkBounded   == vwork <= WorkK * vflen * (vflen + 1) + WorkC
 CursorInside  == vcur <= vflen /\ \A i \in 1..Len(vlim) : vlim[i] <= vflen
 OutcomeTotal  == (vpc = "done") <=> (vout \in TotalOutcomes)
